@@ -333,6 +333,21 @@ pub fn run_case(case: &Case, prefix: Vec<u32>) -> Run {
             Some(_) => {}
         }
     }
+    // ---- (3d) the byte path of a TCP listener on a4 behaves as the view says
+    let tcp_only = !worker_ref.http_listeners.contains_key(&a4) && !worker_ref.https_listeners.contains_key(&a4);
+    if !handed_over && tcp_only && worker_ref.tcp_listeners.get(&a4).is_some_and(|l| l.active) {
+        let probe = &sc.peers[2];
+        let (resps, _, _) = crate::sim::h1::parse_all(&probe.conn.rx, true, true);
+        let got = resps.first().and_then(|r| r.status());
+        let fronts: Vec<&sozu_command_lib::state::ClusterId> = worker_ref.tcp_fronts.iter().filter(|(_, v)| v.iter().any(|f| std::net::SocketAddr::from(f.address) == a4)).map(|(c, _)| c).collect();
+        let plain = fronts.len() == 1 && worker_ref.clusters.get(fronts[0]).is_none_or(|c| c.proxy_protocol.is_none() && c.health_check.is_none()) && worker_ref.backends.get(fronts[0]).is_some_and(|b| !b.is_empty());
+        if plain && got != Some(200) {
+            flag("tcp-path:no-relay-while-view-has-a-frontend".into(), format!("the view has a TCP frontend on a4 for cluster {} with live backends, yet the exchange through the listener got {got:?} ({} bytes)", fronts[0], probe.conn.rx.len()));
+        }
+        if fronts.is_empty() && got.is_some() {
+            flag("tcp-path:relays-without-a-frontend".into(), format!("the view has no TCP frontend on a4, yet the exchange through the listener was answered {got:?}"));
+        }
+    }
     // ---- (4) the stop is acknowledged and the worker exits
     if !(stop_reason.is_empty() || stop_reason == "scenario complete") {
         flag(format!("soft-stop-never-completes:{}", stop_context(case, &base_names)), format!("after the sequence a SoftStop did not make the worker exit ({stop_reason}; run ended {end:?})"));
@@ -400,6 +415,19 @@ fn cases(tier: Tier) -> Vec<Case> {
             }
         }
     }
+    // listener life cycles: every sequence of add / activate / deactivate / remove of the
+    // base's own listener, to depth 3 (quick) or 4 (thorough)
+    for (base, kind, add) in [(1usize, "http", "AddHttpListener(a4,default)"), (2, "https", "AddHttpsListener(a6,default)"), (3, "tcp", "AddTcpListener(a4,default)")] {
+        let verbs = [add.to_owned(), format!("ActivateListener({kind})"), format!("DeactivateListener({kind})"), format!("RemoveListener({kind})")];
+        let depth = if tier == Tier::Quick { 3 } else { 4 };
+        let mut level: Vec<Vec<String>> = vec![vec![]];
+        for d in 1..=depth {
+            level = level.iter().flat_map(|s| verbs.iter().map(move |x| { let mut t = s.clone(); t.push(x.clone()); t })).collect();
+            if d >= 3 {
+                v.extend(level.iter().map(|seq| Case { base, seq: seq.clone() }));
+            }
+        }
+    }
     v
 }
 
@@ -439,7 +467,7 @@ pub fn run(ctx: &Ctx) -> Coverage {
     let n = cases(tier).len().div_ceil(CHUNK);
     let results = explore::run_sharded(ctx, n, "c08", |i| run_item(tier, i));
     let mut cov = super::c01::summarize(ctx, &results, "request sequences sent to an unmodified worker over its real command channel: every command of the ~107-symbol alphabet (the configuration alphabet with invalid twins plus queries, Status, metrics, logging, limits, ReturnListenSockets) from 4 bootstrap states, and pairs of commands (quick: from the populated HTTP state with a structural second command; thorough: all pairs from all 4 states); each followed by QueryClustersHashes, QueryClusterById x2, Status, TCP connection probes on the listener addresses and a SoftStop. Oracle: exactly one final status per request id, the query view equals a ConfigState fed the accepted commands, listening sockets accept iff the view says active, a command the main state accepts is not refused by the worker, the SoftStop is acknowledged once and run() returns");
-    cov.bound = json!({"sequence_length": 2, "alphabet": alphabet().len(), "base_states": base_states().len(), "sequences": cases(tier).len()});
+    cov.bound = json!({"sequence_length": 2, "listener_life_cycle_length": if tier == Tier::Quick { 3 } else { 4 }, "alphabet": alphabet().len(), "base_states": base_states().len(), "sequences": cases(tier).len()});
     cov.exhaustive = true;
     cov
 }
